@@ -422,6 +422,10 @@ def oracle(case, ans_line):
     if kind == "use":
         if rest not in accept:
             fails.append("path/parameters: expected %s, implementation uses %r" % (sorted(accept), rest))
+        # a definition whose name differs from the external type's is reached through a transparent newtype named after it
+        # (an external type WITH type parameters stands for the definition directly whatever the names: type_entry.rs name_match)
+        if key is not None and key != native.rsplit("::", 1)[-1] and not params:
+            fails.append("the definition %r is named differently from %s but no newtype named after it is generated" % (key, native))
         used_as = rest
     elif kind == "wrap":
         nm, _, inner = rest.partition(" ")
